@@ -43,7 +43,7 @@ def confirm(src, i, sid):
         failed = re.findall(r'^\s+FAIL \[.*?\] +(?:\(\S+\) +)?(\S+ \S+)$', out, re.M)
         res['suite_failed_tests'] = sorted(set(failed))
         r_mut = demo('with_change')
-        ok = r_clean == 0 and r_mut != 0 and (rc == 0 or set(t.split()[-1] for t in failed) <= {'matching_regexes_with_case_insensitive_matching_and_verbose_mode'})
+        ok = r_clean == 0 and r_mut != 0 and (rc == 0 or set(t.split()[-1] for t in failed) <= {'matching_regexes_with_case_insensitive_matching_and_verbose_mode', 'matching_regexes_with_case_insensitive_matching'})    # the two case-insensitive proptests are flaky on the unchanged tree (D6)
         res['confirmed'] = ok
     finally:
         sh('git -C /repo worktree remove --force %s' % wt)
